@@ -235,6 +235,19 @@ def analyze(c20, case, line):
         if base is not None and base["verdict"] != "ok":
             return ("wrong-verdict:%s:after-failed-alloc-in:%s" % (name, atfn),
                     "the fault-free run fails but the run with a failed allocation (%s) reports success; replay: %s" % (atdesc, replay))
+        if is_chain and base is not None and base["verdict"] == "ok":
+            # sinks of a run that reports success: exactly the fault-free bytes; a sink under an any-multiplexer may
+            # belong to a dropped branch and then holds a prefix of them
+            got, want = d.get("sinks", "").split(" "), base.get("sinks", "").split(" ")
+            strict = "plexany" not in name
+            okk = len(got) == len(want) and all(
+                (g == w) or (not strict and (g == "-" or w.startswith(g))) for g, w in zip(got, want))
+            if okk and not strict and not any(g == w for g, w in zip(got, want)):
+                okk = False
+            if not okk:
+                return ("wrong-product:chain-sinks:%s:after-failed-alloc-in:%s" % (name[6:], atfn),
+                        "an IO chain reports success but its sinks do not hold the fault-free bytes when the allocation "
+                        "requested by %s fails; replay: %s; sinks %s" % (atdesc, replay, d.get("sinks", "")[:200]))
         if not is_chain:
             m = py_check(c20, name, d.get("prod", ""))
             if m:
@@ -349,8 +362,18 @@ def correspond(ctx):
         _, k = scen_of(case)
         return k >= 0 and not io.startswith("CRASH")
 
+    def on_disagree(case, io, mo):
+        # the Gallina fault model and the implementation differ on an IO chain (verdict, sink contents or the number of
+        # allocation requests): by C20_propagates the model never says ok with wrong bytes, so this is a failing input
+        if mo.startswith("chain\t") and not io.startswith("CRASH"):
+            sid, k = scen_of(case)
+            return ("chain-differs-from-fault-model:%s" % sid.split("|")[0][6:],
+                    "IO chain %s with allocation %d failing: implementation '%s' vs Gallina fault model '%s'"
+                    % (sid, k, io[:160], mo[:160]))
+        return None
+
     st = runner.standard(
-        ctx, cases, oracle, nontrivial,
+        ctx, cases, oracle, nontrivial, on_disagree=on_disagree,
         rule="for each of %d scenarios (%d fixed + per registered algorithm in the thorough tier: generate, export, thumbprint, compare, exchange, sign, verify incl. forged tokens, "
              "wrap, unwrap, encrypt/decrypt with A128KW/A128GCMKW/dir/PBES2/ECDH-ES/RSA-OAEP x GCM/CBC-HS/zip, base64url, "
              "streaming sign/verify/encrypt/decrypt fed in 3 chunks, %d IO chains from the public constructors): ask the "
